@@ -135,7 +135,23 @@ class Inliner:
         self.introduced: dict[str, set[str]] = {}
 
     # ------------------------------------------------------------------ resolution
-    def _helper_for(self, fi: "FuncInfo", call: ast.Call) -> "FuncInfo | None":
+    def _nested_defs(self, fi: "FuncInfo") -> set[str]:
+        cache = self.__dict__.setdefault("_nested_cache", {})
+        key = id(fi.node)
+        if key not in cache:
+            cache[key] = {n.name for n in _walk_own(fi.node) if isinstance(n, ast.FunctionDef)}
+        return cache[key]
+
+    def _by_method_name(self) -> dict[str, list["FuncInfo"]]:
+        if not hasattr(self, "_methods_by_name"):
+            idx: dict[str, list[FuncInfo]] = {}
+            for h in self.repo.functions.values():
+                if h.cls is not None:
+                    idx.setdefault(h.name, []).append(h)
+            self._methods_by_name = idx
+        return self._methods_by_name
+
+    def _helper_for(self, fi: "FuncInfo", call: ast.Call, cm: bool = False) -> "FuncInfo | None":
         f = call.func
         name = f.attr if isinstance(f, ast.Attribute) else (f.id if isinstance(f, ast.Name) else "")
         if not name or name.startswith("__"):
@@ -161,9 +177,15 @@ class Inliner:
                         return None
                     if h is not None and any(name in sub.methods for sub in ci.all_subclasses()):
                         return None
+            if h is None and recv not in ("self", "cls") and self.repo.resolve_name(fi.module, recv) is None:
+                # `choice.accepts(...)` on some object: a method name that exists exactly once in the repository and is not part of the pinned
+                # tree is a helper extracted onto that object's class
+                cands = self._by_method_name().get(name, [])
+                if len(cands) == 1 and cands[0].qual not in known_functions() and not (cands[0].is_staticmethod or cands[0].is_classmethod):
+                    h = cands[0]
         elif isinstance(f, ast.Name):
             h = self.repo.functions.get(f"{fi.module.name}:{name}")
-            if h is None:
+            if h is None and name in self._nested_defs(fi):
                 # a local closure (`def convert(raw): return ...` inside the function) that is only called, never passed around or rebound
                 nested = [n for n in _walk_own(fi.node) if isinstance(n, ast.FunctionDef) and n.name == name]
                 other_uses = [n for n in ast.walk(fi.node) if isinstance(n, ast.Name) and n.id == name and not any(n is c.func for c in ast.walk(fi.node) if isinstance(c, ast.Call))]
@@ -177,7 +199,10 @@ class Inliner:
             return None  # a function of the pinned tree: part of the design the rules were confirmed against, analysed in place
         if isinstance(h.node, ast.AsyncFunctionDef) or h.is_property:
             return None
-        if any(d not in ("staticmethod", "classmethod") for d in h.decorators):
+        is_cm = any(d in ("contextmanager", "contextlib.contextmanager") for d in h.decorators)
+        if is_cm != cm:
+            return None
+        if any(d not in ("staticmethod", "classmethod", "contextmanager", "contextlib.contextmanager") for d in h.decorators):
             return None
         a = h.node.args
         if a.vararg or a.kwarg:
@@ -231,7 +256,7 @@ class Inliner:
             return
         self.done.add(fi.qual)
         calls = [n for n in _walk_own(fi.node) if isinstance(n, ast.Call)]
-        if not any(self._helper_for(fi, c) is not None for c in calls):
+        if not any(self._helper_for(fi, c) is not None or self._helper_for(fi, c, cm=True) is not None for c in calls):
             return
         self.stack.append(fi.qual)
         try:
@@ -321,6 +346,8 @@ class Inliner:
                 return st.value, "expr"
             if isinstance(st.value, ast.YieldFrom) and isinstance(st.value.value, ast.Call):
                 return st.value.value, "yieldfrom"
+            if isinstance(st.value, ast.Yield) and isinstance(st.value.value, ast.Call):
+                return st.value.value, "yieldvalue"  # `yield helper(x)`: the helper computes the yielded value
         if isinstance(st, (ast.Assign, ast.AnnAssign, ast.AugAssign, ast.Return)) and isinstance(st.value, ast.Call):
             return st.value, "value"
         if isinstance(st, ast.If):
@@ -329,16 +356,114 @@ class Inliner:
                 t = t.operand
             if isinstance(t, ast.Call):
                 return t, "test"
+        if isinstance(st, ast.For) and isinstance(st.iter, ast.Call):
+            return st.iter, "forgen"
+        if isinstance(st, ast.With) and len(st.items) == 1 and isinstance(st.items[0].context_expr, ast.Call):
+            return st.items[0].context_expr, "withcm"
         return None
 
+    def _collector(self, st: ast.stmt) -> tuple[str, str, ast.Call] | None:
+        """`x = dict(helper(...))` / list / set / tuple / sorted?? no: only the plain collectors -> (x, collector, helper call)."""
+        if isinstance(st, ast.Expr) and isinstance(st.value, ast.Call) and isinstance(st.value.func, ast.Attribute) and st.value.func.attr in ("update", "extend") \
+                and isinstance(st.value.func.value, ast.Name) and len(st.value.args) == 1 and not st.value.keywords and isinstance(st.value.args[0], ast.Call):
+            # `result.update(helper(...))` / `items.extend(helper(...))`: the yields go into the existing container
+            nm = st.value.func.value.id
+            if any(isinstance(x, ast.Name) and x.id == nm for x in ast.walk(st.value.args[0])):
+                return None
+            return nm, "dict+" if st.value.func.attr == "update" else "list+", st.value.args[0]
+        if isinstance(st, ast.Assign) and len(st.targets) == 1:
+            tgt, v = st.targets[0], st.value
+        elif isinstance(st, ast.AnnAssign) and st.value is not None:
+            tgt, v = st.target, st.value
+        else:
+            return None
+        if not isinstance(tgt, ast.Name) or not isinstance(v, ast.Call) or not isinstance(v.func, ast.Name) or v.func.id not in ("dict", "list", "set") \
+                or len(v.args) != 1 or v.keywords or not isinstance(v.args[0], ast.Call):
+            return None
+        if any(isinstance(x, ast.Name) and x.id == tgt.id for x in ast.walk(v.args[0])):
+            return None
+        return tgt.id, v.func.id, v.args[0]
+
     def _splice(self, fi: "FuncInfo", st: ast.stmt, call: ast.Call, kind: str, depth: int) -> list[ast.stmt] | None:
-        h = self._helper_for(fi, call)
+        h = self._helper_for(fi, call, cm=kind == "withcm")
         if h is None:
             return None
         self.inline_function(h, depth + 1)
         gen = _is_generator(h.node)
-        if gen != (kind == "yieldfrom"):
+        if gen != (kind in ("yieldfrom", "forgen", "collect", "withcm")):
             return None
+        if kind == "withcm":
+            # `with helper(): BODY` for a @contextmanager helper runs BODY at the helper's single yield
+            ys = [n for n in _walk_own(h.node) if isinstance(n, (ast.Yield, ast.YieldFrom))]
+            stmt_ys = [n for n in _walk_own(h.node) if isinstance(n, ast.Expr) and isinstance(n.value, ast.Yield)]
+            if len(ys) != 1 or len(stmt_ys) != 1:
+                return None
+        if kind == "collect":
+            # `x = dict(helper(...))`: the generator helper's `yield k, v` is `x[k] = v` (list: append, set: add), after `x = {}`
+            target_name, collector, _ = self._collector(st)  # type: ignore[misc]
+            ys = [n for n in _walk_own(h.node) if isinstance(n, (ast.Yield, ast.YieldFrom))]
+            stmt_ys = [n for n in _walk_own(h.node) if isinstance(n, ast.Expr) and isinstance(n.value, ast.Yield) and n.value.value is not None]
+            if not ys or len(ys) != len(stmt_ys) or any(isinstance(y, ast.YieldFrom) for y in ys):
+                return None
+            into = collector.endswith("+")
+            collector = collector.rstrip("+")
+            if collector == "dict" and not all(isinstance(n.value.value, ast.Tuple) and len(n.value.value.elts) == 2 for n in stmt_ys):  # type: ignore[union-attr]
+                return None
+            if target_name in _all_names(h.node):
+                return None
+        if kind == "forgen":
+            # `for x in helper(...): BODY` over a lazy generator helper runs BODY at the helper's yield: splice the helper with `yield E` -> `x = E; BODY`
+            ys = [n for n in _walk_own(h.node) if isinstance(n, (ast.Yield, ast.YieldFrom))]
+            stmt_ys = [n for n in _walk_own(h.node) if isinstance(n, ast.Expr) and isinstance(n.value, ast.Yield) and n.value.value is not None]
+            if not ys or len(ys) != len(stmt_ys) or len(ys) > 6 or any(isinstance(y, ast.YieldFrom) for y in ys) \
+                    or (len(ys) > 1 and len(ys) * sum(1 for b in st.body for _ in ast.walk(b)) > 600):  # type: ignore[attr-defined]
+                return None
+
+            def _tail_loop_shape() -> ast.stmt | None:
+                if len(ys) != 1:
+                    return None
+                """The helper is `<setup>; for/while ...: <...>; yield E` with the yield in tail position of the loop body (nested only in
+                ifs): then break / continue / else of the consuming loop mean the same on the helper's loop."""
+                hb = _body_without_doc(h.node)
+                if not hb or not isinstance(hb[-1], (ast.For, ast.While)) or hb[-1].orelse:
+                    return None
+                if any(isinstance(x, (ast.Yield, ast.YieldFrom)) for b in hb[:-1] for x in ast.walk(b)):
+                    return None
+                blk = hb[-1].body
+                while True:
+                    last = blk[-1]
+                    if any(isinstance(x, (ast.Yield, ast.YieldFrom)) for b in blk[:-1] for x in ast.walk(b)):
+                        return None
+                    if last is stmt_ys[0]:
+                        return hb[-1]
+                    if isinstance(last, ast.If) and not last.orelse:
+                        blk = last.body
+                        continue
+                    return None
+
+            tail_loop = _tail_loop_shape()
+            if st.orelse and tail_loop is None:  # type: ignore[attr-defined]
+                return None
+
+            def _loop_level_jumps(stmts: list[ast.stmt]) -> bool:
+                for x in stmts:
+                    if isinstance(x, (ast.Break, ast.Continue)):
+                        return True
+                    if isinstance(x, (ast.For, ast.While, ast.AsyncFor, ast.FunctionDef, ast.AsyncFunctionDef, ast.ClassDef)):
+                        continue
+                    for f_ in ("body", "orelse", "finalbody"):
+                        if _loop_level_jumps([y for y in getattr(x, f_, []) or [] if isinstance(y, ast.stmt)]):
+                            return True
+                    for hd in getattr(x, "handlers", []) or []:
+                        if _loop_level_jumps(hd.body):
+                            return True
+                    for cs in getattr(x, "cases", []) or []:
+                        if _loop_level_jumps(cs.body):
+                            return True
+                return False
+
+            if _loop_level_jumps(st.body) and tail_loop is None:  # type: ignore[attr-defined]
+                return None
         bind = self._bind(fi, h, call)
         if bind is None:
             return None
@@ -366,6 +491,7 @@ class Inliner:
                 binds.append(ast.AnnAssign(target=tgt, annotation=copy.deepcopy(ann[p]), value=copy.deepcopy(v), simple=1))
             else:
                 binds.append(ast.Assign(targets=[tgt], value=copy.deepcopy(v)))
+            binds[-1]._xsa_param_bind = True  # type: ignore[attr-defined]
         for name in helper_bound - set(bind):
             if name in caller_names:
                 rename[name] = f"{name}__i{k}"
@@ -401,17 +527,96 @@ class Inliner:
                 return jump(v)
 
         holder = R().visit(holder)
+        if kind == "forgen":
+            loop: ast.For = st  # type: ignore[assignment]
+
+            class Y(ast.NodeTransformer):
+                def visit_FunctionDef(self, n):
+                    return n
+
+                visit_AsyncFunctionDef = visit_FunctionDef
+                visit_ClassDef = visit_FunctionDef
+                visit_Lambda = visit_FunctionDef
+
+                def visit_Expr(self, e: ast.Expr):
+                    if not (isinstance(e.value, ast.Yield) and e.value.value is not None):
+                        return e
+                    v = e.value.value
+                    tgt = loop.target
+                    if isinstance(tgt, ast.Tuple) and isinstance(v, ast.Tuple) and len(tgt.elts) == len(v.elts) and all(isinstance(t, ast.Name) for t in tgt.elts) \
+                            and not ({t.id for t in tgt.elts} & {x.id for x in ast.walk(v) if isinstance(x, ast.Name)}):
+                        binds_ = [ast.copy_location(ast.Assign(targets=[copy.deepcopy(t)], value=x), e) for t, x in zip(tgt.elts, v.elts)]
+                    else:
+                        binds_ = [ast.copy_location(ast.Assign(targets=[copy.deepcopy(tgt)], value=v), e)]
+                    self.n = getattr(self, "n", 0) + 1
+                    return [*binds_, *(loop.body if self.n == 1 else copy.deepcopy(loop.body))]
+
+            holder = Y().visit(holder)
+            if loop.orelse:
+                # exhaustion of the generator = normal end of the helper's (last) loop
+                holder.body[-1].orelse = list(loop.orelse)
+        if kind == "withcm":
+            with_st: ast.With = st  # type: ignore[assignment]
+
+            class YW(ast.NodeTransformer):
+                def visit_FunctionDef(self, n):
+                    return n
+
+                visit_AsyncFunctionDef = visit_FunctionDef
+                visit_ClassDef = visit_FunctionDef
+                visit_Lambda = visit_FunctionDef
+
+                def visit_Expr(self, e: ast.Expr):
+                    if not isinstance(e.value, ast.Yield):
+                        return e
+                    pre: list[ast.stmt] = []
+                    tgt = with_st.items[0].optional_vars
+                    if tgt is not None:
+                        pre = [ast.copy_location(ast.Assign(targets=[copy.deepcopy(tgt)], value=e.value.value or ast.Constant(value=None)), e)]
+                        ast.fix_missing_locations(pre[0])
+                    return [*pre, *with_st.body]
+
+            holder = YW().visit(holder)
+        if kind == "collect":
+            class YC(ast.NodeTransformer):
+                def visit_FunctionDef(self, n):
+                    return n
+
+                visit_AsyncFunctionDef = visit_FunctionDef
+                visit_ClassDef = visit_FunctionDef
+                visit_Lambda = visit_FunctionDef
+
+                def visit_Expr(self, e: ast.Expr):
+                    if not (isinstance(e.value, ast.Yield) and e.value.value is not None):
+                        return e
+                    v = e.value.value
+                    x = ast.Name(id=target_name, ctx=ast.Load())
+                    if collector == "dict":
+                        new_ = ast.Assign(targets=[ast.Subscript(value=x, slice=v.elts[0], ctx=ast.Store())], value=v.elts[1])  # type: ignore[attr-defined]
+                    else:
+                        new_ = ast.Expr(value=ast.Call(func=ast.Attribute(value=x, attr="append" if collector == "list" else "add", ctx=ast.Load()), args=[v], keywords=[]))
+                    return ast.fix_missing_locations(ast.copy_location(new_, e))
+
+            holder = YC().visit(holder)
         block = ast.If(test=ast.Constant(value=True), body=[*binds, *holder.body] or [ast.Pass()], orelse=[])
         block._xsa_inline = k  # type: ignore[attr-defined]
         block._xsa_helper = h.qual  # type: ignore[attr-defined]
+        loop_nodes = {id(x) for b_ in st.body for x in ast.walk(b_)} if kind in ("forgen", "withcm") else set()  # type: ignore[attr-defined]
         for sub in ast.walk(holder):
-            if not hasattr(sub, "_xsa_origin"):
+            if not hasattr(sub, "_xsa_origin") and id(sub) not in loop_nodes:
                 sub._xsa_origin = h.qual  # type: ignore[attr-defined]
         ast.copy_location(block, st)
         for b in binds:
             ast.copy_location(b, st)
         out: list[ast.stmt] = [block]
-        if kind in ("expr", "yieldfrom"):
+        if kind == "collect" and into:
+            pass
+        elif kind == "collect":
+            empty: ast.expr = ast.Dict(keys=[], values=[]) if collector == "dict" else (ast.List(elts=[], ctx=ast.Load()) if collector == "list" else ast.Call(func=ast.Name(id="set", ctx=ast.Load()), args=[], keywords=[]))
+            st.value = ast.copy_location(empty, st.value)  # type: ignore[union-attr]
+            ast.fix_missing_locations(st)
+            out.insert(0, st)
+        elif kind in ("expr", "yieldfrom", "forgen", "withcm"):
             pass
         else:
             has_value = any(isinstance(n, ast.Return) and n.value is not None for n in _walk_own(h.node))
@@ -419,6 +624,8 @@ class Inliner:
             ast.copy_location(repl, call)
             if kind == "value":
                 st.value = repl  # type: ignore[union-attr]
+            elif kind == "yieldvalue":
+                st.value.value = repl  # type: ignore[union-attr]
             else:
                 t = st.test  # type: ignore[union-attr]
                 if isinstance(t, ast.UnaryOp):
@@ -472,8 +679,12 @@ class Inliner:
             for case in getattr(st, "cases", []) or []:
                 case.body = self._rewrite_block(fi, case.body, depth)
             # 3. statement-level splice
-            sc = self._stmt_call(st)
+            col = self._collector(st)
+            sc = (col[2], "collect") if col is not None else self._stmt_call(st)
             spliced = self._splice(fi, st, sc[0], sc[1], depth) if sc is not None else None
+            if spliced is None and col is not None:
+                sc = self._stmt_call(st)
+                spliced = self._splice(fi, st, sc[0], sc[1], depth) if sc is not None else None
             if spliced is None:
                 # 4. a helper call that is evaluated first inside a larger expression (`self.build_x(a).run(b)`, `f(self.build_x(a), b)`) is
                 #    given a temporary of its own, then spliced like any `tmp = helper(...)`
@@ -575,9 +786,50 @@ class _IfExpToIf(ast.NodeTransformer):
     def _flatten(self, x):
         return x
 
+    @staticmethod
+    def _arg_ifexp(call: ast.expr | None) -> ast.IfExp | None:
+        """`f(a, X if c else Y)`: a conditional expression that is an argument of the statement's call, everything evaluated before it being a
+        plain name / attribute / constant (so that testing `c` first changes nothing)."""
+        if not isinstance(call, ast.Call):
+            return None
+
+        def simple(e: ast.expr) -> bool:
+            while isinstance(e, ast.Attribute):
+                e = e.value
+            return isinstance(e, (ast.Name, ast.Constant))
+
+        if not simple(call.func):
+            return None
+        for a in [*call.args, *[k.value for k in call.keywords]]:
+            if isinstance(a, ast.IfExp):
+                return a if not any(isinstance(n, (ast.NamedExpr, ast.Yield, ast.YieldFrom, ast.Await)) for n in ast.walk(call)) else None
+            if not simple(a):
+                return None
+        return None
+
+    def _split_arg(self, st: ast.stmt, ife: ast.IfExp) -> ast.If:
+        def variant(v: ast.expr) -> ast.stmt:
+            class T(ast.NodeTransformer):
+                def visit_IfExp(self, n: ast.IfExp):
+                    return v if n is ife else self.generic_visit(n)
+
+            # copy everything but the conditional expression itself (kept by identity for the replacement)
+            memo = {id(ife): ife}
+            new = copy.deepcopy(st, memo)
+            return T().visit(new)
+
+        self.count += 1
+        a, b = variant(ife.body), variant(ife.orelse)
+        new = ast.If(test=ife.test, body=[self.visit(a)], orelse=[self.visit(b)])
+        new._xsa_ifexp = True  # type: ignore[attr-defined]
+        return ast.copy_location(new, st)
+
     def visit_Assign(self, st: ast.Assign):
         if isinstance(st.value, ast.IfExp) and not any(isinstance(n, (ast.NamedExpr, ast.Yield, ast.YieldFrom, ast.Await)) for n in ast.walk(st)):
             return self._split(st, st.value, lambda v: ast.Assign(targets=copy.deepcopy(st.targets), value=v))
+        ife = self._arg_ifexp(st.value) if all(isinstance(t, ast.Name) for t in st.targets) else None
+        if ife is not None:
+            return self._split_arg(st, ife)
         return st
 
     def visit_AnnAssign(self, st: ast.AnnAssign):
@@ -593,11 +845,17 @@ class _IfExpToIf(ast.NodeTransformer):
     def visit_Return(self, st: ast.Return):
         if isinstance(st.value, ast.IfExp):
             return self._split(st, st.value, lambda v: ast.Return(value=v))
+        ife = self._arg_ifexp(st.value)
+        if ife is not None:
+            return self._split_arg(st, ife)
         return st
 
     def visit_Expr(self, st: ast.Expr):
         if isinstance(st.value, ast.Yield) and isinstance(st.value.value, ast.IfExp):
             return self._split(st, st.value.value, lambda v: ast.Expr(value=ast.Yield(value=v)))
+        ife = self._arg_ifexp(st.value)
+        if ife is not None:
+            return self._split_arg(st, ife)
         return st
 
     def visit_Lambda(self, node):
@@ -619,6 +877,8 @@ def unroll_display_loops(fn: ast.AST, module_displays: dict[str, ast.expr] | Non
                 defs.setdefault(n.id, [])
         if isinstance(n, ast.Assign) and len(n.targets) == 1 and isinstance(n.targets[0], ast.Name):
             defs.setdefault(n.targets[0].id, []).append(n)
+        elif isinstance(n, ast.AnnAssign) and isinstance(n.target, ast.Name) and n.value is not None:
+            defs.setdefault(n.target.id, []).append(n)
     stores_n: dict[str, int] = {}
     for n in _walk_own(fn):
         if isinstance(n, ast.Name) and isinstance(n.ctx, (ast.Store, ast.Del)):
@@ -644,20 +904,33 @@ def unroll_display_loops(fn: ast.AST, module_displays: dict[str, ast.expr] | Non
                     setattr(st, field, process(sub))
             for h in getattr(st, "handlers", []) or []:
                 h.body = process(h.body)
-            if isinstance(st, ast.For) and isinstance(st.target, ast.Name) and not st.orelse:
+            tuple_target = isinstance(st, ast.For) and isinstance(st.target, (ast.Tuple, ast.List)) and all(isinstance(t, ast.Name) for t in st.target.elts)
+            if isinstance(st, ast.For) and (isinstance(st.target, ast.Name) or tuple_target) and not st.orelse:
                 disp, named = display_of(st.iter)
+                if disp is not None and tuple_target and not all(isinstance(e, (ast.Tuple, ast.List)) and len(e.elts) == len(st.target.elts) and not any(isinstance(x, ast.Starred) for x in e.elts)
+                                                                  for e in disp.elts):
+                    disp = None
                 if disp is not None and 0 < len(disp.elts) <= 10 and not any(isinstance(e, ast.Starred) for e in disp.elts) and len(st.body) * len(disp.elts) <= 80 \
                         and not any(isinstance(x, (ast.Break, ast.Continue, ast.Yield, ast.YieldFrom, ast.FunctionDef, ast.Lambda)) for b in st.body for x in ast.walk(b)) \
                         and (named is None or named in body):
                     if named is not None:
                         drop.add(id(named))
                     for e in disp.elts:
-                        a = ast.Assign(targets=[ast.Name(id=st.target.id, ctx=ast.Store())], value=e, type_comment=None)
-                        ast.copy_location(a, st)
-                        ast.copy_location(a.targets[0], st)
-                        a._xsa_unrolled = True  # type: ignore[attr-defined]
-                        out.append(a)
-                        out.extend(copy.deepcopy(st.body))
+                        pairs = list(zip(st.target.elts, e.elts)) if tuple_target else [(st.target, e)]
+                        for t_, v_ in pairs:
+                            a = ast.Assign(targets=[ast.Name(id=t_.id, ctx=ast.Store())], value=v_, type_comment=None)
+                            ast.copy_location(a, st)
+                            ast.copy_location(a.targets[0], st)
+                            a._xsa_unrolled = True  # type: ignore[attr-defined]
+                            out.append(a)
+                        body_copy = copy.deepcopy(st.body)
+                        # the loop variable is a plain name / attribute / constant in this round: read it as such
+                        body_stores = {x.id for b in st.body for x in ast.walk(b) if isinstance(x, ast.Name) and isinstance(x.ctx, (ast.Store, ast.Del))}
+                        simple = {t_.id: v_ for t_, v_ in pairs if _simple_arg(v_) and t_.id not in body_stores
+                                  and not any(isinstance(x, ast.Name) and x.id in body_stores for x in ast.walk(v_))}
+                        if simple and not any(isinstance(x, (ast.Lambda, ast.GeneratorExp, ast.ListComp, ast.SetComp, ast.DictComp)) for b in st.body for x in ast.walk(b)):
+                            body_copy = [_Subst({k_: copy.deepcopy(v_) for k_, v_ in simple.items()}).visit(b) for b in body_copy]
+                        out.extend(body_copy)
                     count += 1
                     continue
             out.append(st)
@@ -692,6 +965,7 @@ def propagate_attr_aliases(fn: ast.AST, names_only: bool = False) -> int:
 
     cands: dict[str, ast.stmt] = {}
     name_alias: set[str] = set()
+    param_ann = {a.arg: ast.unparse(a.annotation) for a in [*fn.args.posonlyargs, *fn.args.args, *fn.args.kwonlyargs] if a.annotation is not None}
     params = {a.arg for a in [*fn.args.posonlyargs, *fn.args.args, *fn.args.kwonlyargs]} | ({fn.args.vararg.arg} if fn.args.vararg else set()) | ({fn.args.kwarg.arg} if fn.args.kwarg else set())
     for n in _walk_own(fn):
         tgt = n.targets[0] if isinstance(n, ast.Assign) and len(n.targets) == 1 else (n.target if isinstance(n, ast.AnnAssign) and n.value is not None else None)
@@ -700,8 +974,12 @@ def propagate_attr_aliases(fn: ast.AST, names_only: bool = False) -> int:
         if chain(n.value) is not None:
             if not names_only:
                 cands[tgt.id] = n
+        elif isinstance(n.value, ast.Constant) and not isinstance(n.value.value, (bytes, complex)) and n.value.value is not Ellipsis and hasattr(n, "_xsa_param_bind"):
+            # the constant argument of an inlined helper (`low: int = 1`)
+            cands[tgt.id] = n
         elif isinstance(n.value, ast.Name) and n.value.id != tgt.id and not (
-                isinstance(n, ast.AnnAssign) and ast.unparse(n.annotation).replace(" ", "") in ("int", "float", "bool", "int|None", "float|None")):
+                isinstance(n, ast.AnnAssign) and ast.unparse(n.annotation).replace(" ", "") in ("int", "float", "bool", "int|None", "float|None")
+                and ast.unparse(n.annotation) != param_ann.get(n.value.id)):  # (a numeric annotation is kept unless the source parameter declares the same)
             # a plain copy of another local / parameter (`element = pending`, the bound parameter of an inlined helper): same treatment,
             # provided no use of the copy can run after the original was rebound (checked on the CFG below)
             cands[tgt.id] = n
@@ -804,8 +1082,22 @@ class _YieldFromDisplay(ast.NodeTransformer):
         if not isinstance(v, ast.YieldFrom):
             return st
         src = v.value
+        inner_from = False
+        if isinstance(src, ast.Call) and not src.keywords and ast.unparse(src.func) in ("chain.from_iterable", "itertools.chain.from_iterable") and len(src.args) == 1 \
+                and isinstance(src.args[0], (ast.GeneratorExp, ast.ListComp)):
+            # yield from chain.from_iterable(G(x) for x in xs)  is  for x in xs: yield from G(x)
+            src = src.args[0]
+            inner_from = True
+        elif isinstance(src, ast.Call) and not src.keywords and ast.unparse(src.func) in ("chain", "itertools.chain") and src.args and not any(isinstance(a, ast.Starred) for a in src.args):
+            # yield from chain(a, b)  is  yield from a; yield from b
+            self.count += 1
+            flat: list[ast.stmt] = []
+            for a in src.args:
+                r = self.visit_Expr(ast.copy_location(ast.Expr(value=ast.copy_location(ast.YieldFrom(value=a), st)), st))
+                flat.extend(r if isinstance(r, list) else [r])
+            return flat
         if isinstance(src, (ast.GeneratorExp, ast.ListComp)) and not any(g.is_async for g in src.generators):
-            body: list[ast.stmt] = [ast.Expr(value=ast.Yield(value=src.elt))]
+            body: list[ast.stmt] = [ast.Expr(value=ast.YieldFrom(value=src.elt) if inner_from else ast.Yield(value=src.elt))]
             for gen in reversed(src.generators):
                 for cond in reversed(gen.ifs):
                     body = [ast.If(test=cond, body=body, orelse=[])]
@@ -1057,38 +1349,802 @@ def _apply(transformer: ast.NodeTransformer, body: list[ast.stmt]) -> list[ast.s
     return out
 
 
+def scalarize_tuple_temps(fn: ast.AST) -> int:
+    """``pair = (a, b)`` ... ``pair[1]`` ... ``x, y = pair``: a local bound once to a tuple display and only indexed with constants or
+    unpacked is replaced by one local per component (``pair__0 = a; pair__1 = b``), so that the components are followed like any other
+    value."""
+    if not isinstance(fn, (ast.FunctionDef, ast.AsyncFunctionDef)):
+        return 0
+    parents: dict[int, ast.AST] = {}
+    for p_ in [fn, *_walk_own(fn)]:
+        for ch in ast.iter_child_nodes(p_):
+            parents[id(ch)] = p_
+    stores_n: dict[str, list[ast.Name]] = {}
+    loads: dict[str, list[ast.Name]] = {}
+    for n in _walk_own(fn):
+        if isinstance(n, ast.Name):
+            (stores_n if isinstance(n.ctx, (ast.Store, ast.Del)) else loads).setdefault(n.id, []).append(n)
+    params = {a.arg for a in ast.walk(fn.args) if isinstance(a, ast.arg)}
+    count = 0
+    for st in list(_walk_own(fn)):
+        if not (isinstance(st, ast.Assign) and len(st.targets) == 1 and isinstance(st.targets[0], ast.Name) and isinstance(st.value, ast.Tuple)) or hasattr(st, "_xsa_jump"):
+            continue
+        name = st.targets[0].id
+        elts = st.value.elts
+        if name in params or len(stores_n.get(name, [])) != 1 or not loads.get(name) or not elts or any(isinstance(e, ast.Starred) for e in elts):
+            continue
+        plan = []
+        ok = True
+        for u in loads[name]:
+            par = parents.get(id(u))
+            if isinstance(par, ast.Subscript) and par.value is u and isinstance(par.ctx, ast.Load) and isinstance(par.slice, ast.Constant) and isinstance(par.slice.value, int) \
+                    and not isinstance(par.slice.value, bool) and -len(elts) <= par.slice.value < len(elts):
+                plan.append(("index", par, par.slice.value % len(elts)))
+            elif isinstance(par, ast.Assign) and par.value is u and len(par.targets) == 1 and isinstance(par.targets[0], (ast.Tuple, ast.List)) and len(par.targets[0].elts) == len(elts) \
+                    and all(isinstance(t, ast.Name) for t in par.targets[0].elts):
+                plan.append(("unpack", par, 0))
+            else:
+                ok = False
+                break
+        if not ok:
+            continue
+        comps = [f"{name}__{i}" for i in range(len(elts))]
+        new_defs = [ast.copy_location(ast.Assign(targets=[ast.Name(id=c, ctx=ast.Store())], value=e), st) for c, e in zip(comps, elts)]
+
+        def replace_stmt(old: ast.stmt, new: list[ast.stmt]) -> bool:
+            holder = parents.get(id(old))
+            for field in ("body", "orelse", "finalbody"):
+                blk = getattr(holder, field, None)
+                if isinstance(blk, list) and any(x is old for x in blk):
+                    i = next(i for i, x in enumerate(blk) if x is old)
+                    blk[i:i + 1] = new
+                    for x in new:
+                        parents[id(x)] = holder
+                    return True
+            return False
+
+        if not replace_stmt(st, new_defs):
+            continue
+        for kind, node, idx in plan:
+            if kind == "index":
+                par = parents.get(id(node))
+                repl = ast.copy_location(ast.Name(id=comps[idx], ctx=ast.Load()), node)
+                for field, value in ast.iter_fields(par):
+                    if value is node:
+                        setattr(par, field, repl)
+                    elif isinstance(value, list):
+                        for i, x in enumerate(value):
+                            if x is node:
+                                value[i] = repl
+                parents[id(repl)] = par
+            else:
+                outs = [ast.copy_location(ast.Assign(targets=[ast.Name(id=t.id, ctx=ast.Store())], value=ast.Name(id=c, ctx=ast.Load())), node) for t, c in zip(node.targets[0].elts, comps)]
+                replace_stmt(node, outs)
+        count += 1
+    if count:
+        ast.fix_missing_locations(fn)
+        for attr in ("_xsa_cfg", "_xsa_asrc", "_xsa_single_defs", "_xsa_defs"):
+            if hasattr(fn, attr):
+                delattr(fn, attr)
+    return count
+
+
+def next_to_loops(fn: ast.AST) -> int:
+    """``x = next(E for v in ITER if C)`` is ``for v in ITER: if C: x = E; break`` (``else: raise StopIteration``; with a default: ``x = D``
+    first); ``return next(...)`` likewise with a return in the loop.  The generator expression may be bound once to a local that only the
+    ``next`` call reads.  One ``for`` clause only."""
+    if not isinstance(fn, (ast.FunctionDef, ast.AsyncFunctionDef)):
+        return 0
+    count = 0
+    stores_n: dict[str, int] = {}
+    loads_n: dict[str, int] = {}
+    for n in _walk_own(fn):
+        if isinstance(n, ast.Name):
+            d = stores_n if isinstance(n.ctx, (ast.Store, ast.Del)) else loads_n
+            d[n.id] = d.get(n.id, 0) + 1
+    if "next" in stores_n:
+        return 0
+
+    def process(body: list[ast.stmt], depth: int, binds: dict[str, tuple[ast.stmt, int, list[ast.stmt]]]) -> list[ast.stmt]:
+        nonlocal count
+        out: list[ast.stmt] = []
+        for st in body:
+            if isinstance(st, (ast.FunctionDef, ast.AsyncFunctionDef, ast.ClassDef)):
+                out.append(st)
+                continue
+            if isinstance(st, ast.Assign) and len(st.targets) == 1 and isinstance(st.targets[0], ast.Name) and isinstance(st.value, ast.GeneratorExp) \
+                    and stores_n.get(st.targets[0].id) == 1 and loads_n.get(st.targets[0].id) == 1:
+                binds[st.targets[0].id] = (st, depth, out)
+            v = st.value if isinstance(st, (ast.Assign, ast.Return)) else None
+            if isinstance(v, ast.Call) and isinstance(v.func, ast.Name) and v.func.id == "next" and 1 <= len(v.args) <= 2 and not v.keywords \
+                    and (isinstance(st, ast.Return) or len(st.targets) == 1):
+                ge = v.args[0]
+                bind_st = None
+                if isinstance(ge, ast.Name) and ge.id in binds and binds[ge.id][1] == depth:
+                    bind_st = binds[ge.id]
+                    ge = bind_st[0].value
+                if isinstance(ge, ast.GeneratorExp) and len(ge.generators) == 1 and not ge.generators[0].is_async \
+                        and not any(isinstance(x, (ast.NamedExpr, ast.Yield, ast.YieldFrom, ast.Await)) for x in ast.walk(ge)):
+                    comp = ge.generators[0]
+                    comp_names = {x.id for x in ast.walk(comp.target) if isinstance(x, ast.Name)}
+                    inside = {id(x) for x in ast.walk(ge)}
+                    outside = {x.id for x in ast.walk(fn) if isinstance(x, ast.Name) and id(x) not in inside} | {x.arg for x in ast.walk(fn) if isinstance(x, ast.arg)}
+                    rename = {nm: f"{nm}__n{count + 1}" for nm in comp_names if nm in outside}
+                    elt, target, ifs, it = copy.deepcopy(ge.elt), copy.deepcopy(comp.target), [copy.deepcopy(c) for c in comp.ifs], copy.deepcopy(comp.iter)
+                    if rename:
+                        sub = _Subst(dict(rename))
+                        elt, target, ifs = sub.visit(elt), sub.visit(target), [sub.visit(c) for c in ifs]
+                    default = v.args[1] if len(v.args) == 2 else None
+                    pre: list[ast.stmt] = []
+                    post: list[ast.stmt] = []
+                    orelse: list[ast.stmt] = []
+                    # exhaustion: kept as what it was - a `next` that finds nothing - so that the exception model treats it as before
+                    stop = ast.Expr(value=ast.Call(func=ast.Name(id="next", ctx=ast.Load()), args=[ast.Call(func=ast.Name(id="iter", ctx=ast.Load()), args=[ast.Tuple(elts=[], ctx=ast.Load())], keywords=[])], keywords=[]))
+                    stop._xsa_exhausted = True  # type: ignore[attr-defined]
+                    if isinstance(st, ast.Return):
+                        inner: list[ast.stmt] = [ast.Return(value=elt)]
+                        post = [ast.Return(value=default)] if default is not None else [stop]
+                    else:
+                        inner = [ast.Assign(targets=copy.deepcopy(st.targets), value=elt), ast.Break()]
+                        if default is not None:
+                            pre = [ast.Assign(targets=copy.deepcopy(st.targets), value=default)]
+                        else:
+                            orelse = [stop]
+                    for c in reversed(ifs):
+                        inner = [ast.If(test=c, body=inner, orelse=[])]
+                    loop = ast.For(target=target, iter=it, body=inner, orelse=orelse, type_comment=None)
+                    new = [*pre, loop, *post]
+                    for x in new:
+                        ast.copy_location(x, st)
+                        ast.fix_missing_locations(x)
+                    if bind_st is not None:
+                        lst = bind_st[2]
+                        lst[:] = [x for x in lst if x is not bind_st[0]]
+                    count += 1
+                    out.extend(new)
+                    continue
+            for field in ("body", "orelse", "finalbody"):
+                sub_b = getattr(st, field, None)
+                if isinstance(sub_b, list) and sub_b and isinstance(sub_b[0], ast.stmt):
+                    deeper = depth + 1 if isinstance(st, (ast.For, ast.While)) and field == "body" else depth
+                    setattr(st, field, process(sub_b, deeper, binds if deeper == depth else {}))
+            for h in getattr(st, "handlers", []) or []:
+                h.body = process(h.body, depth, binds)
+            out.append(st)
+        return out
+
+    fn.body = process(fn.body, 0, {})
+    return count
+
+
+def genexp_loops(fn: ast.AST) -> int:
+    """``for x in (E for y in ITER if C): BODY`` - the generator expression written in place or bound once to a local that only the loop
+    reads (same loop nesting) - is ``for y in ITER: if C: x = E; BODY``: a lazily filtered loop and the loop with the filter inside are the
+    same to every rule.  One ``for`` clause only; the comprehension variable is renamed when the function uses the name elsewhere."""
+    if not isinstance(fn, (ast.FunctionDef, ast.AsyncFunctionDef)):
+        return 0
+    count = 0
+    while True:
+        stores_n: dict[str, int] = {}
+        loads_n: dict[str, int] = {}
+        for n in _walk_own(fn):
+            if isinstance(n, ast.Name):
+                d = stores_n if isinstance(n.ctx, (ast.Store, ast.Del)) else loads_n
+                d[n.id] = d.get(n.id, 0) + 1
+        changed = False
+
+        def process(body: list[ast.stmt], loop_depth: int, binds: dict[str, tuple[ast.stmt, int, list[ast.stmt]]]) -> list[ast.stmt]:
+            nonlocal changed, count
+            out: list[ast.stmt] = []
+            for st in body:
+                if isinstance(st, (ast.FunctionDef, ast.AsyncFunctionDef, ast.ClassDef)):
+                    out.append(st)
+                    continue
+                if isinstance(st, ast.Assign) and len(st.targets) == 1 and isinstance(st.targets[0], ast.Name) and isinstance(st.value, ast.GeneratorExp) \
+                        and stores_n.get(st.targets[0].id) == 1 and loads_n.get(st.targets[0].id) == 1:
+                    binds[st.targets[0].id] = (st, loop_depth, out)
+                if isinstance(st, ast.For) and not changed:
+                    ge: ast.GeneratorExp | None = None
+                    bind_st = None
+                    if isinstance(st.iter, ast.GeneratorExp):
+                        ge = st.iter
+                    elif isinstance(st.iter, ast.Name) and st.iter.id in binds and binds[st.iter.id][1] == loop_depth:
+                        bind_st = binds[st.iter.id]
+                        ge = bind_st[0].value  # type: ignore[assignment]
+                    if ge is not None and len(ge.generators) == 1 and not ge.generators[0].is_async and not any(isinstance(x, (ast.NamedExpr, ast.Yield, ast.YieldFrom, ast.Await)) for x in ast.walk(ge)):
+                        comp = ge.generators[0]
+                        comp_names = {x.id for x in ast.walk(comp.target) if isinstance(x, ast.Name)}
+                        outside = set()
+                        inside = {id(x) for x in ast.walk(ge)}
+                        for x in ast.walk(fn):
+                            if isinstance(x, ast.Name) and id(x) not in inside:
+                                outside.add(x.id)
+                            elif isinstance(x, ast.arg):
+                                outside.add(x.arg)
+                        rename = {nm: f"{nm}__g{count + 1}" for nm in comp_names if nm in outside}
+                        if isinstance(ge.elt, ast.Name) and isinstance(comp.target, ast.Name) and ge.elt.id == comp.target.id and isinstance(st.target, ast.Name):
+                            # (x for x in ...) consumed as `for t in`: the variable is the loop target
+                            if st.target.id == comp.target.id:
+                                rename = {}
+                            elif not any(isinstance(x, ast.Name) and x.id == st.target.id for x in ast.walk(ge)):
+                                rename = {comp.target.id: st.target.id}
+                        elt, target, ifs = copy.deepcopy(ge.elt), copy.deepcopy(comp.target), [copy.deepcopy(c) for c in comp.ifs]
+                        if rename:
+                            sub = _Subst(dict(rename))
+                            elt, target, ifs = sub.visit(elt), sub.visit(target), [sub.visit(c) for c in ifs]
+                        inner: list[ast.stmt] = [ast.copy_location(ast.Assign(targets=[copy.deepcopy(st.target)], value=elt), st), *st.body]
+                        if isinstance(elt, ast.Name) and isinstance(st.target, ast.Name) and elt.id == st.target.id:
+                            inner = list(st.body)
+                        for c in reversed(ifs):
+                            inner = [ast.copy_location(ast.If(test=c, body=inner, orelse=[]), st)]
+                        new = ast.copy_location(ast.For(target=target, iter=copy.deepcopy(comp.iter), body=inner, orelse=list(st.orelse), type_comment=None), st)
+                        ast.fix_missing_locations(new)
+                        if bind_st is not None:
+                            lst = bind_st[2]
+                            lst[:] = [x for x in lst if x is not bind_st[0]]
+                        changed = True
+                        count += 1
+                        out.append(new)
+                        continue
+                for field in ("body", "orelse", "finalbody"):
+                    sub_b = getattr(st, field, None)
+                    if isinstance(sub_b, list) and sub_b and isinstance(sub_b[0], ast.stmt):
+                        deeper = loop_depth + 1 if isinstance(st, (ast.For, ast.While)) and field == "body" else loop_depth
+                        setattr(st, field, process(sub_b, deeper, binds if deeper == loop_depth else {}))
+                for h in getattr(st, "handlers", []) or []:
+                    h.body = process(h.body, loop_depth, binds)
+                out.append(st)
+            return out
+
+        fn.body = process(fn.body, 0, {})
+        if not changed:
+            break
+    if count:
+        ast.fix_missing_locations(fn)
+    return count
+
+
+_OPERATOR_CMP = {"is_not": ast.IsNot, "is_": ast.Is, "eq": ast.Eq, "ne": ast.NotEq, "lt": ast.Lt, "le": ast.LtE, "gt": ast.Gt, "ge": ast.GtE}
+
+
+def _operator_call(c: ast.Call) -> ast.expr:
+    """operator.is_not(a, b) is `a is not b` (likewise is_, eq, ne, lt, le, gt, ge; contains(a, b) is `b in a`; not_(a) is `not a`)."""
+    f = c.func
+    name = f.attr if isinstance(f, ast.Attribute) and isinstance(f.value, ast.Name) and f.value.id == "operator" else (f.id if isinstance(f, ast.Name) and f.id in ("is_not", "is_") else "")
+    if c.keywords or any(isinstance(a, ast.Starred) for a in c.args):
+        return c
+    if name in _OPERATOR_CMP and len(c.args) == 2:
+        return ast.Compare(left=c.args[0], ops=[_OPERATOR_CMP[name]()], comparators=[c.args[1]])
+    if name == "contains" and len(c.args) == 2:
+        return ast.Compare(left=c.args[1], ops=[ast.In()], comparators=[c.args[0]])
+    if name == "not_" and len(c.args) == 1:
+        return ast.UnaryOp(op=ast.Not(), operand=c.args[0])
+    return c
+
+
+def _getter_of(e: ast.expr | None) -> tuple[str, list[str]] | None:
+    """operator.itemgetter("a", "b") / attrgetter("a", "b") with constant string arguments -> (kind, names)."""
+    if isinstance(e, ast.Call) and not e.keywords and e.args and all(isinstance(a, ast.Constant) and isinstance(a.value, (str, int)) and not isinstance(a.value, bool) for a in e.args):
+        f = e.func
+        name = f.attr if isinstance(f, ast.Attribute) and isinstance(f.value, ast.Name) and f.value.id == "operator" else (f.id if isinstance(f, ast.Name) else "")
+        if name == "itemgetter":
+            return "item", [a.value for a in e.args]  # type: ignore[attr-defined]
+        if name == "attrgetter" and all(isinstance(a.value, str) and a.value.isidentifier() for a in e.args):  # type: ignore[attr-defined]
+            return "attr", [a.value for a in e.args]  # type: ignore[attr-defined]
+    return None
+
+
+class _GetterCalls(ast.NodeTransformer):
+    """`GETTER(x)` for a module-level `GETTER = operator.itemgetter("a", "b")` (or the getter built in place) is `(x["a"], x["b"])`."""
+
+    def __init__(self, getters: dict[str, tuple[str, list[str]]], shadowed: set[str], local_names: set[str] = frozenset()):  # type: ignore[assignment]
+        self.getters = getters
+        self.shadowed = shadowed
+        self.local_names = local_names
+        self.local_displays: dict[str, ast.expr] = {}
+        self.local_partials: dict[str, ast.Call] = {}
+        self.local_callables: dict[str, ast.Call] = {}
+        self.count = 0
+        self.k = 0
+
+    def visit_Compare(self, n: ast.Compare):
+        self.generic_visit(n)
+        # a == b == 0 (a chain of equalities that ends in a constant) is a == 0 and b == 0
+        if len(n.ops) >= 2 and all(isinstance(o, ast.Eq) for o in n.ops) and isinstance(n.comparators[-1], ast.Constant) and isinstance(n.comparators[-1].value, (int, str)) \
+                and all(_simple_arg(e) for e in [n.left, *n.comparators[:-1]]):
+            k = n.comparators[-1]
+            vals = [ast.Compare(left=e, ops=[ast.Eq()], comparators=[copy.deepcopy(k)]) for e in [n.left, *n.comparators[:-1]]]
+            self.count += 1
+            return ast.fix_missing_locations(ast.copy_location(ast.BoolOp(op=ast.And(), values=vals), n))
+        return n
+
+    @staticmethod
+    def _apply_operator_callable(f: ast.expr, var: "str | ast.expr") -> ast.expr | None:
+        """operator.methodcaller("m", a)(x) is x.m(a); itemgetter(k)(x) is x[k]; attrgetter("a")(x) is x.a."""
+        if not isinstance(f, ast.Call):
+            return None
+        fn_ = f.func
+        name = fn_.attr if isinstance(fn_, ast.Attribute) and isinstance(fn_.value, ast.Name) and fn_.value.id == "operator" else (fn_.id if isinstance(fn_, ast.Name) else "")
+        x = ast.Name(id=var, ctx=ast.Load()) if isinstance(var, str) else var
+        if name == "methodcaller" and f.args and isinstance(f.args[0], ast.Constant) and isinstance(f.args[0].value, str) and f.args[0].value.isidentifier():
+            return ast.Call(func=ast.Attribute(value=x, attr=f.args[0].value, ctx=ast.Load()), args=list(f.args[1:]), keywords=list(f.keywords))
+        g = _getter_of(f)
+        if g is not None and len(g[1]) == 1:
+            return ast.Subscript(value=x, slice=ast.Constant(value=g[1][0]), ctx=ast.Load()) if g[0] == "item" else ast.Attribute(value=x, attr=g[1][0], ctx=ast.Load())
+        if ast.unparse(fn_) in ("partial", "functools.partial") and f.args and isinstance(f.args[0], (ast.Name, ast.Attribute)) and not any(isinstance(a, ast.Starred) for a in f.args) \
+                and not any(k.arg is None for k in f.keywords):
+            return _operator_call(ast.Call(func=f.args[0], args=[*f.args[1:], x], keywords=list(f.keywords)))
+        return None
+
+    def visit_Assign(self, st: ast.Assign):
+        # a, b = map(f, (x, y)) is a, b = f(x), f(y)
+        v = st.value
+        if len(st.targets) == 1 and isinstance(st.targets[0], (ast.Tuple, ast.List)) and isinstance(v, ast.Call) and isinstance(v.func, ast.Name) and v.func.id == "map" \
+                and "map" not in self.local_names and len(v.args) == 2 and not v.keywords and isinstance(v.args[0], (ast.Name, ast.Attribute)) \
+                and isinstance(v.args[1], (ast.Tuple, ast.List)) and len(v.args[1].elts) == len(st.targets[0].elts) and not any(isinstance(x, ast.Starred) for x in v.args[1].elts):
+            st.value = ast.copy_location(ast.Tuple(elts=[ast.Call(func=copy.deepcopy(v.args[0]), args=[x], keywords=[]) for x in v.args[1].elts], ctx=ast.Load()), v)
+            ast.fix_missing_locations(st)
+            self.count += 1
+        self.generic_visit(st)
+        return st
+
+    def visit_Call(self, c: ast.Call):
+        self.generic_visit(c)
+        g = None
+        # map(f, xs) is (f(x) for x in xs); map(lambda v: E, xs) is (E for v in xs); filter(f, xs) is (x for x in xs if f(x))
+        kind_ = c.func.id if isinstance(c.func, ast.Name) and c.func.id in ("map", "filter", "filterfalse") else (
+            "filterfalse" if ast.unparse(c.func) == "itertools.filterfalse" else None)
+        if kind_ is not None and kind_ not in self.local_names and len(c.args) == 2 and not c.keywords \
+                and not any(isinstance(a, ast.Starred) for a in c.args):
+            f, xs = c.args
+            self.k += 1
+            var = f"__m{self.k}"
+            elt: ast.expr | None = None
+            target: ast.expr = ast.Name(id=var, ctx=ast.Store())
+            ifs: list[ast.expr] = []
+            simple_lambda = isinstance(f, ast.Lambda) and len(f.args.args) == 1 and not (f.args.posonlyargs or f.args.kwonlyargs or f.args.vararg or f.args.kwarg or f.args.defaults)
+            applied = self._apply_operator_callable(f, var)
+            if applied is not None:
+                if kind_ == "map":
+                    elt = applied
+                else:
+                    elt, ifs = ast.Name(id=var, ctx=ast.Load()), [applied]
+            elif kind_ == "map":
+                if simple_lambda:
+                    target = ast.Name(id=f.args.args[0].arg, ctx=ast.Store())
+                    elt = f.body
+                elif isinstance(f, (ast.Name, ast.Attribute)):
+                    elt = ast.Call(func=f, args=[ast.Name(id=var, ctx=ast.Load())], keywords=[])
+            else:
+                if isinstance(f, ast.Constant) and f.value is None:
+                    elt, ifs = ast.Name(id=var, ctx=ast.Load()), [ast.Name(id=var, ctx=ast.Load())]
+                elif simple_lambda:
+                    target = ast.Name(id=f.args.args[0].arg, ctx=ast.Store())
+                    elt, ifs = ast.Name(id=f.args.args[0].arg, ctx=ast.Load()), [f.body]
+                elif isinstance(f, (ast.Name, ast.Attribute)):
+                    elt, ifs = ast.Name(id=var, ctx=ast.Load()), [ast.Call(func=f, args=[ast.Name(id=var, ctx=ast.Load())], keywords=[])]
+            if elt is not None and kind_ == "filterfalse":
+                ifs = [ast.UnaryOp(op=ast.Not(), operand=ifs[0])]
+            if elt is not None:
+                self.count += 1
+                if isinstance(f, ast.Name) and (f.id in self.local_partials or f.id in self.local_callables):
+                    elt = self.visit(elt)  # the mapped callable is itself a partial application
+                    ifs = [self.visit(i) for i in ifs]
+                new = ast.GeneratorExp(elt=elt, generators=[ast.comprehension(target=target, iter=xs, ifs=ifs, is_async=0)])
+                return ast.fix_missing_locations(ast.copy_location(new, c))
+        # any(P(x) for x in (a, b, c)) is P(a) or P(b) or P(c); all(...) is the conjunction
+        # (likewise sum(E(x) for x in (a, b, c)) is E(a) + E(b) + E(c), also with tuple targets over a display of tuples)
+        if isinstance(c.func, ast.Name) and c.func.id in ("any", "all", "sum") and c.func.id not in self.local_names and len(c.args) == 1 and not c.keywords \
+                and isinstance(c.args[0], (ast.GeneratorExp, ast.ListComp)) and len(c.args[0].generators) == 1:
+            comp = c.args[0].generators[0]
+            disp = comp.iter
+            if isinstance(disp, ast.Name) and disp.id in self.local_displays:
+                disp = self.local_displays[disp.id]
+            maps: list[dict[str, ast.expr]] | None = None
+            if isinstance(disp, (ast.Tuple, ast.List)) and 1 <= len(disp.elts) <= 8 and not comp.ifs and not comp.is_async:
+                if isinstance(comp.target, ast.Name):
+                    maps = [{comp.target.id: e} for e in disp.elts]
+                elif isinstance(comp.target, (ast.Tuple, ast.List)) and all(isinstance(t, ast.Name) for t in comp.target.elts) and all(
+                        isinstance(e, (ast.Tuple, ast.List)) and len(e.elts) == len(comp.target.elts) and not any(isinstance(x, ast.Starred) for x in e.elts) for e in disp.elts):
+                    maps = [{t.id: x for t, x in zip(comp.target.elts, e.elts)} for e in disp.elts]
+            if maps is not None:
+                uses: dict[str, int] = {}
+                for x in ast.walk(c.args[0].elt):
+                    if isinstance(x, ast.Name):
+                        uses[x.id] = uses.get(x.id, 0) + 1
+                # a component that is not a plain name / constant may be substituted only where it is evaluated once
+                if not all(_simple_arg(v) or (uses.get(k, 0) <= 1 and not any(isinstance(y, (ast.Call, ast.NamedExpr, ast.Yield, ast.Await)) for y in ast.walk(v))) for m_ in maps for k, v in m_.items()):
+                    maps = None
+            if maps is not None:
+                vals = [_Subst({k: copy.deepcopy(v) for k, v in m_.items()}).visit(copy.deepcopy(c.args[0].elt)) for m_ in maps]
+                if c.func.id == "sum":
+                    new = vals[0]
+                    for v in vals[1:]:
+                        new = ast.BinOp(left=new, op=ast.Add(), right=v)
+                else:
+                    new = vals[0] if len(vals) == 1 else ast.BoolOp(op=ast.Or() if c.func.id == "any" else ast.And(), values=vals)
+                    if len(vals) == 1:
+                        new = ast.Call(func=ast.Name(id="bool", ctx=ast.Load()), args=[new], keywords=[])
+                self.count += 1
+                return ast.fix_missing_locations(ast.copy_location(new, c))
+        oc = _operator_call(c)
+        if oc is not c and not (isinstance(c.func, ast.Name) and c.func.id in self.local_names):
+            self.count += 1
+            return ast.fix_missing_locations(ast.copy_location(oc, c))
+        # p = functools.partial(f, a, k=v) ... p(x) is f(a, x, k=v)
+        if isinstance(c.func, ast.Name) and c.func.id in self.local_callables and len(c.args) == 1 and not c.keywords and _simple_arg(c.args[0]):
+            applied_ = self._apply_operator_callable(self.local_callables[c.func.id], c.args[0])
+            if applied_ is not None:
+                self.count += 1
+                return ast.fix_missing_locations(ast.copy_location(applied_, c))
+        if isinstance(c.func, ast.Name) and c.func.id in self.local_partials and (not any(k.arg is None for k in c.keywords) or not self.local_partials[c.func.id].keywords):
+            base = self.local_partials[c.func.id]
+            given = {k.arg for k in c.keywords}
+            new = ast.Call(func=copy.deepcopy(base.args[0]), args=[*[copy.deepcopy(a) for a in base.args[1:]], *c.args],
+                           keywords=[*[copy.deepcopy(k) for k in base.keywords if k.arg not in given], *c.keywords])
+            self.count += 1
+            return ast.fix_missing_locations(ast.copy_location(new, c))
+        if isinstance(c.func, ast.Name) and c.func.id in self.getters and c.func.id not in self.shadowed:
+            g = self.getters[c.func.id]
+        elif isinstance(c.func, ast.Call):
+            g = _getter_of(c.func)
+        if g is None or len(c.args) != 1 or c.keywords or not isinstance(c.args[0], (ast.Name, ast.Attribute)):
+            return c
+        kind, names = g
+        def one(nm):
+            base = copy.deepcopy(c.args[0])
+            if kind == "item":
+                return ast.Subscript(value=base, slice=ast.Constant(value=nm), ctx=ast.Load())
+            return ast.Attribute(value=base, attr=nm, ctx=ast.Load())
+        new = one(names[0]) if len(names) == 1 else ast.Tuple(elts=[one(n) for n in names], ctx=ast.Load())
+        self.count += 1
+        return ast.fix_missing_locations(ast.copy_location(new, c))
+
+
+def named_display_yields(fn: ast.AST) -> int:
+    """``events = (a, b, c)`` directly followed by ``yield from events`` (the only use of the local) is ``yield from (a, b, c)``."""
+    if not isinstance(fn, (ast.FunctionDef, ast.AsyncFunctionDef)):
+        return 0
+    stores_n: dict[str, int] = {}
+    loads_n: dict[str, int] = {}
+    for n in _walk_own(fn):
+        if isinstance(n, ast.Name):
+            d = stores_n if isinstance(n.ctx, (ast.Store, ast.Del)) else loads_n
+            d[n.id] = d.get(n.id, 0) + 1
+    count = 0
+
+    def process(body: list[ast.stmt]) -> list[ast.stmt]:
+        nonlocal count
+        out: list[ast.stmt] = []
+        i = 0
+        while i < len(body):
+            st = body[i]
+            nxt = body[i + 1] if i + 1 < len(body) else None
+            if isinstance(st, ast.Assign) and len(st.targets) == 1 and isinstance(st.targets[0], ast.Name) and isinstance(st.value, (ast.Tuple, ast.List)) \
+                    and stores_n.get(st.targets[0].id) == 1 and loads_n.get(st.targets[0].id) == 1 \
+                    and isinstance(nxt, ast.Expr) and isinstance(nxt.value, ast.YieldFrom) and isinstance(nxt.value.value, ast.Name) and nxt.value.value.id == st.targets[0].id:
+                nxt.value.value = st.value
+                out.append(nxt)
+                count += 1
+                i += 2
+                continue
+            if not isinstance(st, (ast.FunctionDef, ast.AsyncFunctionDef, ast.ClassDef)):
+                for field in ("body", "orelse", "finalbody"):
+                    sub = getattr(st, field, None)
+                    if isinstance(sub, list) and sub and isinstance(sub[0], ast.stmt):
+                        setattr(st, field, process(sub))
+                for h in getattr(st, "handlers", []) or []:
+                    h.body = process(h.body)
+            out.append(st)
+            i += 1
+        return out
+
+    fn.body = process(fn.body)
+    return count
+
+
+def sink_callable_choice(fn: ast.AST) -> int:
+    """``f = self.a if c else self.b`` directly followed by the only use of ``f`` - as the callee of a simple statement ``... f(args) ...`` -
+    is ``if c: ... self.a(args) ... else: ... self.b(args) ...``: choosing the bound method first and calling it later is the branch."""
+    if not isinstance(fn, (ast.FunctionDef, ast.AsyncFunctionDef)):
+        return 0
+    stores_n: dict[str, int] = {}
+    loads_n: dict[str, int] = {}
+    for n in _walk_own(fn):
+        if isinstance(n, ast.Name):
+            d = stores_n if isinstance(n.ctx, (ast.Store, ast.Del)) else loads_n
+            d[n.id] = d.get(n.id, 0) + 1
+    count = 0
+
+    def ref(e: ast.expr) -> bool:
+        while isinstance(e, ast.Attribute):
+            e = e.value
+        return isinstance(e, ast.Name)
+
+    def process(body: list[ast.stmt]) -> list[ast.stmt]:
+        nonlocal count
+        out: list[ast.stmt] = []
+        i = 0
+        while i < len(body):
+            st = body[i]
+            nxt = body[i + 1] if i + 1 < len(body) else None
+            if isinstance(st, ast.Assign) and len(st.targets) == 1 and isinstance(st.targets[0], ast.Name) and isinstance(st.value, ast.IfExp) and ref(st.value.body) and ref(st.value.orelse) \
+                    and stores_n.get(st.targets[0].id) == 1 and loads_n.get(st.targets[0].id) == 1 and isinstance(nxt, (ast.Return, ast.Assign, ast.Expr, ast.AnnAssign)):
+                name = st.targets[0].id
+                callee = [c for c in ast.walk(nxt) if isinstance(c, ast.Call) and isinstance(c.func, ast.Name) and c.func.id == name]
+                if len(callee) == 1 and not any(isinstance(x, (ast.Lambda, ast.GeneratorExp, ast.ListComp, ast.SetComp, ast.DictComp, ast.NamedExpr, ast.Yield, ast.YieldFrom)) for x in ast.walk(nxt)):
+                    a = _Subst({name: copy.deepcopy(st.value.body)}).visit(copy.deepcopy(nxt))
+                    b = _Subst({name: copy.deepcopy(st.value.orelse)}).visit(copy.deepcopy(nxt))
+                    new = ast.copy_location(ast.If(test=st.value.test, body=[a], orelse=[b]), st)
+                    ast.fix_missing_locations(new)
+                    out.append(new)
+                    count += 1
+                    i += 2
+                    continue
+            if not isinstance(st, (ast.FunctionDef, ast.AsyncFunctionDef, ast.ClassDef)):
+                for field in ("body", "orelse", "finalbody"):
+                    sub = getattr(st, field, None)
+                    if isinstance(sub, list) and sub and isinstance(sub[0], ast.stmt):
+                        setattr(st, field, process(sub))
+                for h in getattr(st, "handlers", []) or []:
+                    h.body = process(h.body)
+            out.append(st)
+            i += 1
+        return out
+
+    fn.body = process(fn.body)
+    return count
+
+
+class _ApplyToLoop(ast.NodeTransformer):
+    """``collections.apply(items, func)`` (the repository's own `for item in items: func(item)` helper, xsdata.utils.collections.apply) in
+    statement position is the loop it abbreviates."""
+
+    def __init__(self, is_apply) -> None:
+        self.is_apply = is_apply
+        self.count = 0
+
+    def visit_FunctionDef(self, node):
+        self.generic_visit(node)
+        return node
+
+    def visit_Lambda(self, node):
+        return node
+
+    def visit_Expr(self, st: ast.Expr):
+        c = st.value
+        if isinstance(c, ast.Call) and len(c.args) == 2 and not c.keywords and not any(isinstance(a, ast.Starred) for a in c.args) and self.is_apply(c.func) \
+                and isinstance(c.args[1], (ast.Name, ast.Attribute)):
+            self.count += 1
+            var = f"__a{self.count}"
+            call = ast.Call(func=c.args[1], args=[ast.Name(id=var, ctx=ast.Load())], keywords=[])
+            loop = ast.For(target=ast.Name(id=var, ctx=ast.Store()), iter=c.args[0], body=[ast.Expr(value=call)], orelse=[], type_comment=None)
+            return ast.fix_missing_locations(ast.copy_location(loop, st))
+        return st
+
+
 def normalize_conditionals(repo: "Repo") -> int:
     m, w, t, u, y = _MatchToIf(), _HoistWalrus(), _IfExpToIf(), _SplitTupleAssign(), _YieldFromDisplay()
     extra = 0
     for fi in repo.functions.values():
         before = (m.count, w.count, t.count, u.count, y.count)
+        kinds = {type(x) for x in ast.walk(fi.node)}
+        names_used = {x.id for x in ast.walk(fi.node) if isinstance(x, ast.Name)}
+        fi.node._xsa_kinds = kinds  # type: ignore[attr-defined]
+        fi.node._xsa_names = names_used  # type: ignore[attr-defined]
+        getters = {k: g for k, v in fi.module.globals.items() if (g := _getter_of(v)) is not None}
+        gc = _GetterCalls(getters, _bound_names(fi.node) if getters else set(), _bound_names(fi.node))
+        sto: dict[str, int] = {}
+        for x in _walk_own(fi.node):
+            if isinstance(x, ast.Name) and isinstance(x.ctx, (ast.Store, ast.Del)):
+                sto[x.id] = sto.get(x.id, 0) + 1
+        gc.local_displays = {x.targets[0].id: x.value for x in _walk_own(fi.node) if isinstance(x, ast.Assign) and len(x.targets) == 1 and isinstance(x.targets[0], ast.Name)
+                             and isinstance(x.value, (ast.Tuple, ast.List)) and sto.get(x.targets[0].id) == 1
+                             and all(isinstance(e, ast.Name) and sto.get(e.id, 0) <= 1 or not isinstance(e, ast.Name) for e in x.value.elts)
+                             and not any(isinstance(y, (ast.Call, ast.NamedExpr)) for e in x.value.elts for y in ast.walk(e))}
+        def _partial(v: ast.expr) -> bool:
+            return isinstance(v, ast.Call) and ast.unparse(v.func) in ("functools.partial", "partial") and len(v.args) >= 1 and isinstance(v.args[0], (ast.Name, ast.Attribute)) \
+                and not any(isinstance(a, ast.Starred) for a in v.args) and not any(k.arg is None for k in v.keywords) \
+                and all(_simple_arg(a) and (not isinstance(a, ast.Name) or sto.get(a.id, 0) <= (0 if a.id in _params else 1)) for a in [*v.args[1:], *[k.value for k in v.keywords]])
+
+        _params = {a.arg for a in [*fi.node.args.posonlyargs, *fi.node.args.args, *fi.node.args.kwonlyargs]}
+        gc.local_partials = {x.targets[0].id: x.value for x in _walk_own(fi.node) if isinstance(x, ast.Assign) and len(x.targets) == 1 and isinstance(x.targets[0], ast.Name)
+                             and sto.get(x.targets[0].id) == 1 and x.targets[0].id not in _params and _partial(x.value)}
+        def _opcallable(v: ast.expr) -> bool:
+            if not isinstance(v, ast.Call):
+                return False
+            nm = ast.unparse(v.func)
+            if nm in ("operator.methodcaller", "methodcaller"):
+                return bool(v.args) and isinstance(v.args[0], ast.Constant) and all(_simple_arg(a) and (not isinstance(a, ast.Name) or sto.get(a.id, 0) <= (0 if a.id in _params else 1))
+                                                                                     for a in [*v.args[1:], *[k.value for k in v.keywords]])
+            return _getter_of(v) is not None and len(v.args) == 1
+
+        gc.local_callables = {x.targets[0].id: x.value for x in _walk_own(fi.node) if isinstance(x, ast.Assign) and len(x.targets) == 1 and isinstance(x.targets[0], ast.Name)
+                              and sto.get(x.targets[0].id) == 1 and x.targets[0].id not in _params and _opcallable(x.value)}
+        fi.node.body = _apply(gc, fi.node.body)
+        extra += gc.count
+        if gc.count:
+            kinds = {type(x) for x in ast.walk(fi.node)}  # map / filter / getters became generator expressions, comparisons ...
+            names_used = {x.id for x in ast.walk(fi.node) if isinstance(x, ast.Name)}
+        if "apply" in names_used or "collections" in names_used:
+            def _is_apply(f: ast.expr, _m=fi.module) -> bool:
+                return (repo.resolve_name(_m, ast.unparse(f)) if isinstance(f, (ast.Name, ast.Attribute)) else None) == "xsdata.utils.collections:apply"
+
+            ap = _ApplyToLoop(_is_apply)
+            fi.node.body = _apply(ap, fi.node.body)
+            extra += ap.count
+        if ast.YieldFrom in kinds:
+            extra += named_display_yields(fi.node)
+        if ast.IfExp in kinds:
+            extra += sink_callable_choice(fi.node)
         fi.node.body = _apply(y, fi.node.body)
         fi.node.body = _apply(m, fi.node.body)
         fi.node.body = _apply(w, fi.node.body)
         fi.node.body = _apply(u, fi.node.body)
         c = inline_condition_temps(fi.node)
-        c += unroll_display_loops(fi.node, {k: v for k, v in fi.module.globals.items() if isinstance(v, (ast.Tuple, ast.List))})
+        if "next" in names_used and ast.GeneratorExp in kinds:
+            c += next_to_loops(fi.node)
+        if ast.GeneratorExp in kinds and ast.For in kinds:
+            c += genexp_loops(fi.node)
+        if ast.Tuple in kinds:
+            c += scalarize_tuple_temps(fi.node)
+        if ast.For in kinds or ast.YieldFrom in kinds:
+            c += unroll_display_loops(fi.node, {k: v for k, v in fi.module.globals.items() if isinstance(v, (ast.Tuple, ast.List))})
         c += propagate_attr_aliases(fi.node)
         fi.node.body = _apply(t, fi.node.body)
-        if (m.count, w.count, t.count, u.count, y.count) != before or c:
+        fi.node._xsa_kinds = {type(x) for x in ast.walk(fi.node)}  # type: ignore[attr-defined]  (after the rewrites: loops may have appeared)
+        if (m.count, w.count, t.count, u.count, y.count) != before or c or gc.count:
             ast.fix_missing_locations(fi.node)
         extra += c
     return m.count + w.count + t.count + u.count + y.count + extra
 
 
+def lazy_generator_temps(repo: "Repo", fi: "FuncInfo") -> int:
+    """``events = self.convert_value(...)`` ... ``yield from events``: a local bound once to a call of a *generator* method and consumed
+    only by ``yield from`` statements in mutually exclusive branches (same loop nesting as the binding) runs at the ``yield from``: the call
+    is moved there, so that a generator object handed around as a value and the direct ``yield from self.convert_value(...)`` are the same."""
+    fn = fi.node
+    if fi.cls is None or not isinstance(fn, ast.FunctionDef):
+        return 0
+    parents: dict[int, ast.AST] = {}
+    for p_ in _walk_own(fn):
+        for ch in ast.iter_child_nodes(p_):
+            parents[id(ch)] = p_
+    for ch in ast.iter_child_nodes(fn):
+        parents[id(ch)] = fn
+    stores_n: dict[str, list[ast.Name]] = {}
+    loads: dict[str, list[ast.Name]] = {}
+    for n in _walk_own(fn):
+        if isinstance(n, ast.Name):
+            (stores_n if isinstance(n.ctx, (ast.Store, ast.Del)) else loads).setdefault(n.id, []).append(n)
+    params = {a.arg for a in [*fn.args.posonlyargs, *fn.args.args, *fn.args.kwonlyargs]}
+    order: dict[int, int] = {}
+
+    def number(n: ast.AST) -> None:
+        order[id(n)] = len(order)
+        for ch in ast.iter_child_nodes(n):
+            if not isinstance(ch, (ast.FunctionDef, ast.AsyncFunctionDef, ast.ClassDef, ast.Lambda)):
+                number(ch)
+
+    number(fn)
+
+    def chain_to(n: ast.AST) -> list[ast.AST]:
+        out = []
+        while id(n) in parents:
+            n = parents[id(n)]
+            out.append(n)
+        return out
+
+    def loop_of(n: ast.AST) -> ast.AST | None:
+        return next((a for a in chain_to(n) if isinstance(a, (ast.For, ast.While))), None)
+
+    def arm(if_: ast.If, n: ast.AST) -> str:
+        ch = [n, *chain_to(n)]
+        below = ch[ch.index(if_) - 1]
+        return "body" if any(below is x for x in if_.body) else "orelse"
+
+    count = 0
+    for st in list(_walk_own(fn)):
+        if not (isinstance(st, ast.Assign) and len(st.targets) == 1 and isinstance(st.targets[0], ast.Name) and isinstance(st.value, ast.Call)) or hasattr(st, "_xsa_jump"):
+            continue
+        name = st.targets[0].id
+        call = st.value
+        f = call.func
+        if name in params or len(stores_n.get(name, [])) != 1 or not loads.get(name):
+            continue
+        if not (isinstance(f, ast.Attribute) and isinstance(f.value, ast.Name) and f.value.id in ("self", "cls")):
+            continue
+        h = fi.cls.find_method(f.attr)
+        if h is None or not _is_generator(h.node):
+            continue
+        # arguments: plain names / attribute chains / constants whose roots are bound at most once (parameters: never)
+        ok = True
+        for a in [*call.args, *[k.value for k in call.keywords]]:
+            e = a
+            while isinstance(e, ast.Attribute):
+                e = e.value
+            if isinstance(e, ast.Constant):
+                continue
+            # every binding of the root precedes this statement (so nothing rebinds it between the call and its consumption)
+            if not isinstance(e, ast.Name) or any(order.get(id(x), 1 << 30) > order[id(st)] for x in stores_n.get(e.id, [])):
+                ok = False
+        if not ok:
+            continue
+        uses = loads[name]
+        use_stmts = []
+        for u in uses:
+            yf = parents.get(id(u))
+            es = parents.get(id(yf)) if yf is not None else None
+            if isinstance(yf, ast.For) and yf.iter is u and len(uses) == 1:
+                use_stmts.append(yf)  # `for x in events:` - the only consumer
+                continue
+            if not (isinstance(yf, ast.YieldFrom) and isinstance(es, ast.Expr)):
+                ok = False
+                break
+            use_stmts.append(es)
+        if not ok or any(loop_of(u) is not loop_of(st) for u in use_stmts):
+            continue
+        # mutually exclusive: every pair of uses sits in different arms of a common `if`
+        for i, a in enumerate(use_stmts):
+            for b in use_stmts[i + 1:]:
+                common = next((x for x in chain_to(a) if isinstance(x, ast.If) and any(x is y for y in chain_to(b))), None)
+                if common is None or arm(common, a) == arm(common, b):
+                    ok = False
+        if not ok:
+            continue
+        # the binding statement goes away; the call is evaluated at the (single executed) use
+        for u in uses:
+            if isinstance(parents[id(u)], ast.For):
+                parents[id(u)].iter = copy.deepcopy(call)  # type: ignore[union-attr]
+            else:
+                parents[id(u)].value = copy.deepcopy(call)  # type: ignore[union-attr]
+        holder = parents[id(st)]
+        for field in ("body", "orelse", "finalbody"):
+            blk = getattr(holder, field, None)
+            if isinstance(blk, list) and any(x is st for x in blk):
+                blk[:] = [x for x in blk if x is not st] or [ast.copy_location(ast.Pass(), st)]
+        count += 1
+    if count:
+        ast.fix_missing_locations(fn)
+        for attr in ("_xsa_cfg", "_xsa_asrc"):
+            if hasattr(fn, attr):
+                delattr(fn, attr)
+    return count
+
+
 def inline_private_helpers(repo: "Repo") -> dict:
     n = normalize_conditionals(repo)
     inl = Inliner(repo)
+    lazy0 = 0
+    for fi in list(repo.functions.values()):
+        kinds = getattr(fi.node, "_xsa_kinds", None)
+        if fi.cls is not None and (kinds is None or ast.YieldFrom in kinds or ast.For in kinds):
+            lazy0 += lazy_generator_temps(repo, fi)
     inl.run()
     inl.stats["conditional_expressions_split"] = n
-    inl.stats["absorbed"] = _drop_absorbed(repo, inl.sites)
     # the parameter bindings of spliced helpers (`element = pending`) are plain copies: propagate them like hand-written aliases
-    post = 0
-    for q in inl.introduced:
-        fi = repo.functions.get(q)
-        if fi is not None:
-            post += propagate_attr_aliases(fi.node, names_only=True)
+    post = lazy = 0
+    for _round in range(2):
+        again = []
+        for q in list(inl.introduced):
+            fi = repo.functions.get(q)
+            if fi is not None:
+                post += scalarize_tuple_temps(fi.node)
+                post += unroll_display_loops(fi.node, {k: v for k, v in fi.module.globals.items() if isinstance(v, (ast.Tuple, ast.List))})
+                post += propagate_attr_aliases(fi.node, names_only=True)
+                c = lazy_generator_temps(repo, fi)
+                if c:
+                    lazy += c
+                    again.append(fi)
+        if not again:
+            break
+        # a generator call moved to its `yield from` may now be a spliceable helper call
+        for fi in again:
+            inl.done.discard(fi.qual)
+            inl.inline_function(fi)
+    inl.stats["absorbed"] = _drop_absorbed(repo, inl.sites)
     inl.stats["aliases_after_inlining"] = post
+    inl.stats["lazy_generator_temps"] = lazy + lazy0
     return inl.stats
 
 
